@@ -301,7 +301,11 @@ struct Runner {
         if (!shrunk) {
             if (m != stored) {
                 for (auto &k : m) if (!stored.count(k)) return fail("C13", "stored-keys-changed", opName, w + "key " + keyStr(k) + " exists although nothing was subscribed at or below it");
-                for (auto &k : stored) if (!m.count(k)) return fail("C13", "stored-keys-changed", opName, w + "key " + keyStr(k) + " disappeared without a shrink");
+                // A DEAD key that goes away outside shrink() (an implementation may prune when the last subscription leaves) is
+                // not against the statement; a key at or above a held subscription must stay
+                for (auto &k : stored) if (!m.count(k) && liveAtOrBelow(k)) return fail("C13", "live-key-removed", opName, w + "key " + keyStr(k) + " disappeared although a subscription at or below it is still held");
+                for (auto it = hasSubject.begin(); it != hasSubject.end();) it = (it->empty() || m.count(*it)) ? std::next(it) : hasSubject.erase(it);
+                stored = m;
             }
         } else {
             for (auto &k : m) if (!stored.count(k)) return fail("C13", "stored-keys-changed", opName, w + "key " + keyStr(k) + " appeared during shrink");
